@@ -1,6 +1,8 @@
 import Aiorpcx.C17.Meets
 import Aiorpcx.C17.Recv
 import Aiorpcx.C17.FactsTie
+import Aiorpcx.C17.Prefix
+import Aiorpcx.C17.Sent
 /-!
 # C17 — the SOCKS handshake outcome depends only on the reply bytes; never over-reads
 
@@ -181,7 +183,21 @@ theorem exact_consumption {cfg : Cfg} (hg : GoodCfg cfg) (oracle : Nat → Nat)
   rw [hv] at h
   exact ⟨h.1, by simpa [refOf] using h.2.2⟩
 
-/-- the verdict looks at nothing beyond the granting sequence: bytes after it do not matter -/
+/-- **EOF at every offset.**  If `seq` is a complete granting reply sequence, then on every
+    proper prefix of it (the proxy closes the connection early), under every segmentation, the
+    handshake raises `SOCKSProtocolError`. -/
+theorem eof_before_completion {cfg : Cfg} (hg : GoodCfg cfg) (oracle : Nat → Nat) (seq : Bytes)
+    (idx : Nat) (hv : verdictFor cfg seq = .granted seq.length) (j : Nat) (hj : j < seq.length) :
+    (handshake oracle (Client.init cfg) ⟨seq.take j, idx⟩).outcome =
+      some .socksProtocolError := by
+  have h := outcome_spec hg oracle (seq.take j) idx
+  have hbad : verdictFor cfg (seq.take j) = .bad := by
+    cases cfg with
+    | s4 hh port a => exact verdict4_prefix_bad seq hv j hj
+    | s5 dst ab ms => exact verdict5_prefix_bad _ seq hv j hj
+  rw [hbad] at h
+  exact h
+
 theorem verdict4_granted_len (s : Bytes) (n : Nat) (h : Spec.verdict4 s = .granted n) : n = 8 := by
   match s with
   | [] | [_] | [_, _] | [_, _, _] | [_, _, _, _] | [_, _, _, _, _] | [_, _, _, _, _, _]
